@@ -336,6 +336,8 @@ class Ev:
         self.overrides = overrides or {}  # repo fq -> host callable(ev, args, kwargs) replacing a repo function / class
         self.max_steps, self.max_depth = max_steps, max_depth
         self.steps = 0
+        self.total_steps = 0
+        self.entry_calls = 0
         self.depth = 0
         self._modenv: dict[str, Env] = {}
         self._enum: dict[str, EnumClass] = {}
@@ -344,7 +346,11 @@ class Ev:
         self._cur_exc: list[ExcObj] = []
 
     # ------------------------------------------------------------------ entry points
+    def stats(self) -> str:
+        return f"evaluator: {self.entry_calls} entry evaluations of extracted functions, {self.total_steps + self.steps} interpreted AST steps"
+
     def reset(self) -> None:
+        self.total_steps += self.steps
         self.steps = 0
         self.depth = 0
         self.ext_calls = []
@@ -357,7 +363,7 @@ class Ev:
         return e
 
     def func(self, spec: str) -> FuncVal:
-        fi = self.ctx.fn(spec)
+        fi = anchor_fn(self.ctx, spec)
         if fi.parent is not None:
             raise AnalysisError(f"g1-eval: {spec} is a nested function; obtain it by calling its factory")
         return self._funcval(fi)
@@ -373,21 +379,23 @@ class Ev:
         return v
 
     def class_value(self, spec: str) -> Any:
-        return self._classval(self.ctx.repo.cls(spec))
+        return self._classval(anchor_cls(self.ctx, spec))
 
     def call(self, f: Any, *args: Any, **kwargs: Any) -> Any:
         """Call an interpreted value; returns its value or raises ``Raised``."""
+        self.entry_calls += 1
         return self._call(f, list(args), dict(kwargs), None)
 
     def outcome(self, f: Any, *args: Any, **kwargs: Any) -> tuple[str, Any]:
         """('return', value) | ('raise', ExcObj)."""
+        self.entry_calls += 1
         try:
             return "return", self._call(f, list(args), dict(kwargs), None)
         except Raised as r:
             return "raise", r.exc
 
     def enum_member(self, cls_spec: str, name: str) -> EnumMember:
-        ec = self._classval(self.ctx.repo.cls(cls_spec))
+        ec = self._classval(anchor_cls(self.ctx, cls_spec))
         if not isinstance(ec, EnumClass) or name not in ec.members:
             raise AnalysisError(f"anchor=enum member {cls_spec}.{name} not found")
         return ec.members[name]
@@ -1653,3 +1661,34 @@ def regex_const(ctx: Ctx, module: Module, e: ast.expr) -> tuple[str, int] | None
             if isinstance(part, ast.Attribute) and part.attr.isupper():
                 flags |= int(getattr(_re, part.attr))
     return pat, flags
+
+
+def anchor_fn(ctx: Ctx, spec: str) -> FunctionInfo:
+    """``ctx.fn`` that follows a module-level name through imports when the def moved to a sibling module
+    (the anchor is the *name as visible from the anchored module*, not the file that happens to hold the def)."""
+    fi = ctx.repo.try_func(spec)
+    if fi is None:
+        rel, _, qn = spec.partition(":")
+        head, _, rest = qn.partition(".")
+        r = ctx.repo.resolve_name_global(ctx.repo.module(rel), head)
+        if isinstance(r, FunctionInfo) and not rest:
+            fi = r
+        elif isinstance(r, FunctionInfo) and rest and rest in r.nested:
+            fi = r.nested[rest]
+        elif isinstance(r, ClassInfo) and rest in r.methods:
+            fi = r.methods[rest]
+    if fi is None:
+        return ctx.fn(spec)  # raises the standard anchor error
+    ctx.touch(fi)
+    return fi
+
+
+def anchor_cls(ctx: Ctx, spec: str) -> ClassInfo:
+    rel, _, qn = spec.partition(":")
+    m = ctx.repo.module(rel)
+    if qn in m.classes:
+        return m.classes[qn]
+    r = ctx.repo.resolve_name_global(m, qn)
+    if isinstance(r, ClassInfo):
+        return r
+    return ctx.repo.cls(spec)
